@@ -267,18 +267,29 @@ func execSrv(f []string) vlib.Res {
 	} else {
 		pkt = vlib.UnHex(f[3])
 		r = parseR(f[4])
+		if len(f) > 5 && (f[5] == "dec=f") != (new(dns.Msg).Unpack(pkt) != nil) {
+			return vlib.Res{Impl: "bad-dec-token"}
+		}
 	}
 	live.Stub.Set(func(req *dns.Msg) *dns.Msg { return buildUpstream(r, req) })
+	live.Stub.Panic = func(*dns.Msg) bool { return r.mode == 'p' }
 	calls0 := live.Stub.Calls.Load()
 	remote, rip := remoteFor(entry)
 	ek := kindOf(entry)
 	var reply []byte
 	extra := ""
+	preJudge := ""
 	switch entry {
 	case "rawudp", "rawtcp":
 		writes, handled, strict := live.Raw(pkt, remote)
 		if len(writes) > 0 {
 			reply = writes[0]
+		}
+		// ServeRaw's contract with the engines: false = undecodable body, the
+		// engine answers FORMERR in place. A body the library cannot decode
+		// must therefore come back unhandled and unwritten.
+		if v := viewQuery(pkt); v.hdrOK && !v.decodable && (handled || len(writes) > 0) {
+			preJudge = fail("srv/"+entry+"/verdict/undecodable-body-accepted", fmt.Sprintf("handled=%v writes=%d", handled, len(writes)))
 		}
 		extra = fmt.Sprintf(" handled=%s strict=%s writes=%d", vlib.B(handled), vlib.B(strict), len(writes))
 	case "inline":
@@ -327,6 +338,9 @@ func execSrv(f []string) vlib.Res {
 	d := liveCfg.deploy()
 	d.remoteIP = rip
 	or := judgeHinted("srv/"+entry, ek, d, pkt, reply, r)
+	if preJudge != "" {
+		or = preJudge
+	}
 	impl := summarize(reply)
 	if !isQ {
 		// rejected-on-header packets: the model predicts these bytes exactly
